@@ -9,6 +9,7 @@ import (
 	"github.com/go-kid/ioc/util/el"
 	"github.com/go-kid/strconv2"
 	"github.com/pkg/errors"
+	"strconv"
 	"strings"
 )
 
@@ -83,7 +84,7 @@ func (c *configQuoteAwarePostProcessors) PostProcessProperties(properties []*com
 			if expVal == nil {
 				return "", nil
 			}
-			marshalVal, err := strconv2.FormatAny(expVal)
+			marshalVal, err := formatValue(expVal)
 			if err != nil {
 				return "", errors.Wrapf(err, "marshal expression tag value %v error", expVal)
 			}
@@ -98,4 +99,16 @@ func (c *configQuoteAwarePostProcessors) PostProcessProperties(properties []*com
 		logger.Debugf("config quote value on '%s'\n '%s' -> '%s'", prop, prop.TagStr, prop.TagVal)
 	}
 	return nil, nil
+}
+
+// formatValue renders a value for splicing into tag text. Floating point numbers are written
+// without exponent ("1000000", not "1e+06"), so that the text reads back as the same number.
+func formatValue(a any) (string, error) {
+	switch f := a.(type) {
+	case float64:
+		return strconv.FormatFloat(f, 'f', -1, 64), nil
+	case float32:
+		return strconv.FormatFloat(float64(f), 'f', -1, 32), nil
+	}
+	return strconv2.FormatAny(a)
 }
